@@ -2212,6 +2212,7 @@ impl<'bump, T: 'bump> Vec<'bump, T> {
         Splice {
             drain: self.drain(range),
             replace_with: replace_with.into_iter(),
+            marker: PhantomData,
         }
     }
 }
@@ -2585,6 +2586,11 @@ impl<'a, 'bump, T> FusedIterator for Drain<'a, 'bump, T> {}
 pub struct Splice<'a, 'bump, I: Iterator + 'a + 'bump> {
     drain: Drain<'a, 'bump, I::Item>,
     replace_with: I,
+    // Dropping a `Splice` grows the vector, i.e. allocates from the vector's
+    // `Bump`, so unlike `Drain` (which is `Send`) a `Splice` must stay on
+    // the thread that may use that `Bump`: make it `!Send`/`!Sync` like
+    // `&'bump Bump` itself.
+    marker: PhantomData<&'bump Bump>,
 }
 
 impl<'a, 'bump, I: Iterator> Iterator for Splice<'a, 'bump, I> {
